@@ -97,23 +97,23 @@ def streams(ctx, res, nvec=None, seed=None, full_ntt=None):
         env["VERIF_SEED"] = str(seed)
     if nvec is not None:
         env["VERIF_NVEC"] = str(nvec)
-    specs = [dict(name="simd", backend=b) for b in ("sse", "avx2")]
-    specs += [dict(name="ops", backend=b) for b in ("serial", "sse", "avx2")]
-    specs += [dict(name="ntt", backend=b, sanitize=None, extra=["-DMIN16=8", "-DMIN32=8"]) for b in ("serial", "sse", "avx2")]
+    specs = [dict(name="simd", backend=b) for b in cl.simd_backends()]
+    specs += [dict(name="ops", backend=b) for b in ("serial",) + cl.simd_backends()]
+    specs += [dict(name="ntt", backend=b, sanitize=None, extra=["-DMIN16=8", "-DMIN32=8"]) for b in ("serial",) + cl.simd_backends()]
     exes, errs = cl.build_harnesses(specs)
     for k, e in errs.items():
         ctx["problems"].append({"kind": "harness-build", "what": "%s harness does not compile for %s" % k, "detail": e})
     cov = {"backends": sorted({b for (_, b) in exes})}
 
     # ---- (1) intrinsics and kernels
-    for b in ("sse", "avx2"):
+    for b in cl.simd_backends():
         exe = exes.get(("simd", b))
         if exe:
             _stream(res, "simd/" + b, exe, env)
 
     # ---- (2) functors, three builds
     outs = {}
-    for b in ("serial", "sse", "avx2"):
+    for b in ("serial",) + cl.simd_backends():
         exe = exes.get(("ops", b))
         if not exe:
             continue
@@ -122,7 +122,7 @@ def streams(ctx, res, nvec=None, seed=None, full_ntt=None):
             op, rest = l.split(" ", 1)
             if op.startswith("v"):
                 k = VEC_OPS.get(op)
-                return ("%s_%s %s" % (k, b, rest)) if k else None
+                return ("%s_%s %s" % (k, "avx2" if b == "native" else b, rest)) if k else None
             return l
         outs[b] = _stream(res, "ops/" + b, exe, dict(env, VERIF_NOSTRUCT="1"), mapper=mapper)
     cov["cross_build_ops"] = _cross(ctx, "ops", outs)
@@ -130,12 +130,14 @@ def streams(ctx, res, nvec=None, seed=None, full_ntt=None):
     # ---- (3) transforms and products, three builds with identical inputs
     full = thorough if full_ntt is None else full_ntt
     outs = {}
-    for b in ("serial", "sse", "avx2"):
+    for b in ("serial",) + cl.simd_backends():
         exe = exes.get(("ntt", b))
         if not exe:
             continue
 
-        def keep(l, b=b):
+        hb = "avx2" if b == "native" else b    # the host-native build runs the AVX2 kernels: same vector loop model
+
+        def keep(l, b=b, hb=hb):
             f = l.split(" ", 4)
             op, w, k = f[0], int(f[1]) if f[0] != "tab" else 0, int(f[3]) if f[0] != "tab" else 99
             if op == "tab":
@@ -144,13 +146,13 @@ def streams(ctx, res, nvec=None, seed=None, full_ntt=None):
                 return k <= 11
             if b == "serial":   # the serial build's own stream belongs to C01/C02; here only a sample
                 return op in ("nttfwd", "mulnttshoup") and k <= 5
-            return k <= 8 or (op == "nttfwd_" + b and k <= 10)
+            return k <= 8 or (op == "nttfwd_" + hb and k <= 10)
 
-        def mapper(l, b=b):
+        def mapper(l, b=b, hb=hb):
             # forward transforms of the vector builds are compared with the vector loop model and, as spec,
             # with the serial model's words
             if b != "serial" and l.startswith("nttfwd "):
-                return "nttfwd_" + b + l[6:]
+                return "nttfwd_" + hb + l[6:]
             return l
         outs[b] = _stream(res, "ntt/" + b, exe, env, mapper=mapper, keep=keep)
     cov["cross_build_ntt"] = _cross(ctx, "ntt", outs)
